@@ -35,6 +35,7 @@ type E1Op struct {
 	N       int    `json:"n,omitempty"`
 	Text    string `json:"text,omitempty"`  // feed: the bytes to deliver (instead of N filler bytes)
 	Empty   bool   `json:"empty,omitempty"` // readfrom: the source returns (0, nil) before every fragment
+	EOFData bool   `json:"eofdata,omitempty"` // readfrom: the source returns its last fragment together with io.EOF
 }
 
 type E1Task struct {
@@ -590,7 +591,7 @@ func (r *e1Run) doWrite(ti, oi int, op E1Op, td *e1TaskData, backing []byte) {
 		case "ctxwritev":
 			call.N, call.Err = r.ch.CtxWritev(ctx, segs)
 		case "readfrom":
-			call.N, call.Err = r.ch.ReadFrom(&shortReader{data: append([]byte{}, buf...), step: imax(1, op.N), empty: op.Empty})
+			call.N, call.Err = r.ch.ReadFrom(&shortReader{data: append([]byte{}, buf...), step: imax(1, op.N), empty: op.Empty, eofData: op.EOFData})
 		case "write":
 			msg, _ := e1Message(op.Carrier, buf, call.ID)
 			if op.Carrier == "arena" {
